@@ -1,4 +1,6 @@
 import RactorModel.Lemmas.LeakyBucket
+import RactorModel.Lemmas.FactoryLimit
+import RactorModel.Extracted
 
 /-!
 # C15 — Factory capacity controls: limits, rate, pool size, draining
@@ -96,6 +98,59 @@ theorem bucket_zero_interval (c : Cfg) (h0 : c.interval = 0) (s : LB) (d now : N
   unfold refresh
   simp [hd, h0, Nat.not_lt.mpr hnow]
 
+
+/-! ## Discard limit on the factory queue (`maybe_enqueue`) -/
+
+open Factory in
+/-- (limit, Oldest) after `maybe_enqueue` the factory queue holds at most `L` jobs — for every
+`L` including 0, every prior queue content (also one longer than `L` after a limit reduction:
+it is trimmed), both queue types. The shedding loop left through its own exit condition. -/
+theorem limit_oldest (w : W) (j : Job) (L : Nat) (hd : w.disc = some (L, .oldest)) :
+    (w.maybeEnqueue j).queue.length ≤ L :=
+  maybeEnqueue_oldest_le w j L hd
+
+open Factory in
+/-- (limit, Newest) a discardable job never makes the factory queue longer than
+`max L lenBefore`: at or above `L` the incoming job is rejected (after a limit reduction the
+queue only stops growing). -/
+theorem limit_newest (w : W) (j : Job) (L : Nat) (hd : w.disc = some (L, .newest))
+    (hdisc : discardable w.cfg j = true) :
+    (w.maybeEnqueue j).queue.length ≤ max L w.queue.length :=
+  maybeEnqueue_newest_le w j L hd hdisc
+
+open Factory in
+/-- (limit, Newest, the statement's wording) the number of waiting DISCARDABLE jobs never
+exceeds `max L before`, whatever non-discardable jobs do; with a constant `L` it is the
+invariant "at most `L` waiting discardable jobs". -/
+theorem limit_newest_discardable (w : W) (j : Job) (L : Nat) (hd : w.disc = some (L, .newest)) :
+    ((w.maybeEnqueue j).queue.filter (discardable w.cfg)).length
+      ≤ max L (w.queue.filter (discardable w.cfg)).length :=
+  maybeEnqueue_newest_discardable w j L hd
+
+open Factory in
+/-- (Newest sheds the incoming job, once) -/
+theorem newest_sheds_incoming_once (w : W) (j : Job) (L : Nat) (hd : w.disc = some (L, .newest))
+    (hdisc : discardable w.cfg j = true) (hfull : L ≤ w.queue.length) :
+    (w.maybeEnqueue j).queue = w.queue ∧
+    (w.maybeEnqueue j).env.log = w.env.log ++ [loadshedEv w.env.hasHandler j] ++ (if j.port then [Ev.reply j.id true] else []) :=
+  maybeEnqueue_newest_shed w j L hd hdisc hfull
+
+open Factory in
+/-- (Oldest sheds from the head, each shed job reported exactly once) the jobs removed are
+exactly `shed`, every other job stays, and the history grows by exactly one `Loadshed`
+report per shed job. -/
+theorem oldest_sheds_each_once (w : W) (j : Job) (L : Nat) (hd : w.disc = some (L, .oldest)) :
+    ∃ shed : List Job,
+      (w.queue ++ [{ j with port := false }]).Perm (shed ++ (w.maybeEnqueue j).queue) ∧
+      (w.maybeEnqueue j).env.log = (w.env.accept j).log ++ shed.map (loadshedEv w.env.hasHandler) :=
+  maybeEnqueue_oldest_shed w j L hd
+
+/-! ## Source-derived constants (E-SRC) -/
+
+theorem extracted_pool_maximum : Extracted.globalWorkerPoolMaximum = some Factory.GLOBAL_WORKER_POOL_MAXIMUM := by decide
+theorem extracted_calculate_frequency :
+    Extracted.calculateFrequencyMs.map (· * 1000000) = some Factory.CALCULATE_FREQUENCY := by decide
+
 /-! ### Non-vacuity -/
 
 /-- refill 2 every 100 ms, max 5, initially 1; three boundaries crossed at t = 350 ms. -/
@@ -123,3 +178,10 @@ end C15
 #print axioms C15.bucket_check_false_iff
 #print axioms C15.bucket_saturates
 #print axioms C15.bucket_zero_interval
+#print axioms C15.limit_oldest
+#print axioms C15.limit_newest
+#print axioms C15.limit_newest_discardable
+#print axioms C15.newest_sheds_incoming_once
+#print axioms C15.oldest_sheds_each_once
+#print axioms C15.extracted_pool_maximum
+#print axioms C15.extracted_calculate_frequency
